@@ -27,6 +27,10 @@ type GenConfig struct {
 	CkTypes    bool
 	SrcConds   bool
 	Prelude    []Op // fixed leading ops (default: create bucket 0)
+	// HotKey: most ops address key 0 (long histories on one key).
+	HotKey bool
+	// InterleaveSeq: an mpuSeq sometimes gets 1-2 writes to the same key between its parts and its complete.
+	InterleaveSeq bool
 }
 
 func (g GenConfig) weight(k string) int { return g.Weights[k] }
@@ -96,11 +100,13 @@ func (g GenConfig) ver(t *rapid.T, label string) string {
 	if !g.Versions {
 		return ""
 	}
-	switch rapid.IntRange(0, 5).Draw(t, label+"Kind") {
+	switch rapid.IntRange(0, 6).Draw(t, label+"Kind") {
 	case 0, 1, 2:
 		return ""
 	case 3:
 		return "null"
+	case 4:
+		return "cur"
 	default:
 		return fmt.Sprintf("ref:%d", rapid.IntRange(0, 7).Draw(t, label+"Ref"))
 	}
@@ -166,6 +172,9 @@ func (g GenConfig) GenOp(t *rapid.T, kind string) Op {
 	o := Op{Kind: kind}
 	o.B = rapid.IntRange(0, g.Buckets-1).Draw(t, "b")
 	o.K = rapid.IntRange(0, g.Keys-1).Draw(t, "k")
+	if g.HotKey && rapid.IntRange(0, 2).Draw(t, "hot") > 0 {
+		o.K = 0
+	}
 	switch kind {
 	case OpCreateBucket, OpDeleteBucket:
 	case OpSetVersioning:
@@ -243,6 +252,9 @@ func (g GenConfig) GenOp(t *rapid.T, kind string) Op {
 		o.Upload = rapid.IntRange(-1, 3).Draw(t, "up")
 	case OpDelete:
 		o.Ver = g.ver(t, "ver")
+		if g.Versions && rapid.IntRange(0, 3).Draw(t, "delCur") == 0 {
+			o.Ver = "cur"
+		}
 		if g.Conditions && rapid.IntRange(0, 4).Draw(t, "delCond") == 0 {
 			o.IfMatch = rapid.SampledFrom([]string{"cur", "stale", "*"}).Draw(t, "delIm")
 		}
@@ -352,6 +364,18 @@ func (g GenConfig) Gen(t *rapid.T) []Op {
 				}
 				p.Upload, p.PartNo = LastUpload, pn
 				ops = append(ops, p)
+			}
+			if g.InterleaveSeq && rapid.IntRange(0, 2).Draw(t, "seqInterleave") == 0 {
+				nw := rapid.IntRange(1, 2).Draw(t, "seqWrites")
+				for w := 0; w < nw; w++ {
+					kind := OpPut
+					if g.weight(OpDelete) > 0 && rapid.IntRange(0, 3).Draw(t, "seqWriteKind") == 0 {
+						kind = OpDelete
+					}
+					x := g.GenOp(t, kind)
+					x.B, x.K = create.B, create.K
+					ops = append(ops, x)
+				}
 			}
 			if rapid.IntRange(0, 5).Draw(t, "seqComplete") > 0 {
 				c := g.GenOp(t, OpMpuComplete)
